@@ -230,10 +230,17 @@ def r5(ctx, cls):
     elif below:
       ok = len(acts['cache']) == 1 and [U(a) for a in acts['cache'][0].node.args] == [sink] and not sw and not acts['discard'] and not acts['spawn']
       seen.setdefault('cache', []).append(ok)
+      # nothing wakes a waiter from the cache: a connection may be cached only once it is known that nobody is waiting
+      no_waiters = ('any(self._waiters)', False) in fs or ('self._waiters', False) in fs or ('len(self._waiters)>0', False) in fs or ('notself._waiters', True) in fs
+      seen.setdefault('cache: no waiter', []).append(no_waiters)
     else:
       ok = len(sw) == 1 and sw[0][1:] == ('-', '1') and len(acts['discard']) == 1 and [U(a) for a in acts['discard'][0].node.args] == [sink] and not acts['cache'] and not acts['spawn']
       ok = ok and ('self._current_size<=self._min_size', False) in fs
       seen.setdefault('close above min', []).append(ok)
+  v = seen.get('cache: no waiter')
+  ctx.ob('C07.R5', rl, 'a released connection is cached only when no request is waiting', bool(v) and all(v),
+         'the cache branch is taken without having tested the waiter queue: in a fixed-size pool (min >= max) the connection is cached while requests wait, nothing wakes '
+         'them, and a later arrival overtakes them', why)
   v = seen.get('pool closed: connection closed')
   ctx.ob('C07.R2', rl, 'a connection released to a closed pool is closed', bool(v) and all(v),
          'the pool-closed branch of _Release only decrements _current_size: lent connections that come back after the pool closed stay open for ever',
